@@ -248,3 +248,55 @@ def gen_c10(tier, rng):
         ops += ["enc e seq", "enc e " + final, "enc f dev %d" % dev, "enc f stream %d" % stream, "enc f " + final]
         cases.append(Case("c10", ops, nontrivial=True, tags=("used-vs-fresh",)))
     return cases
+
+
+# ---- predicates on the implementation's output, evaluated by the Lean driver (`chk` operations) -------
+
+def _chk_ops(prop, case, im):
+    ops = [o for o in case.ops if o.startswith("pkt ")]
+    n = 0
+    dev = stream = 0
+    last_ids = []
+    for o, l in zip(case.ops, im):
+        w = o.split(" ")
+        if w[0] == "enc" and len(w) > 3 and w[2] == "dev":
+            dev = int(w[3])
+        if w[0] == "enc" and len(w) > 3 and w[2] == "stream":
+            stream = int(w[3])
+        if w[0] == "enc" and w[2] == "encode":
+            last_ids = w[5:]
+            if prop in ("C07", "C08") and l.startswith("frames "):
+                ops.append(("chkfr %s %s %s | %s" % (w[3], w[4], " ".join(w[5:]), " ".join(l.split(" ")[2:]))).replace("  ", " "))
+                n += 1
+        if prop == "C01" and w[0] == "dec" and w[2] == "feedlast" and l.startswith("pk "):
+            ops.append(("chkrt %d %d %s | %s" % (dev, stream, " ".join(last_ids), " ".join(l.split(" ")[2:]))).replace("  ", " "))
+            n += 1
+    return ops, n
+
+
+def make_batch_pred(prop):
+    from . import core
+
+    def batch(cases, impl, ctx):
+        res = [None] * len(cases)
+        pairs = []
+        idx = []
+        for ci, (c, im) in enumerate(zip(cases, impl)):
+            if im is None:
+                continue
+            if any(l.startswith("CRASH") for l in im):
+                res[ci] = False
+                continue
+            ops, n = _chk_ops(prop, c, im)
+            if n:
+                pairs.append(("k%d" % ci, ops))
+                idx.append(ci)
+        outs = core.run_driver(pairs) if pairs else []
+        for ci, out in zip(idx, outs):
+            verdicts = [l for l in out if l.startswith("chk ")]
+            if any((prop + "=false") in l for l in verdicts):
+                res[ci] = False
+            elif any((prop + "=true") in l for l in verdicts):
+                res[ci] = True
+        return res
+    return batch
